@@ -28,7 +28,7 @@ def finish(c, ctx):
 
 def configs(r, tier, lps):
     """(threads, checkpoint interval, GVT period in us) — more threads than LPs included"""
-    base = [(1, 0, 1000), (2, 1, 100), (3, 3, 500), (4, 7, 1000), (8, 2, 200), (lps + 3, 5, 300), (16, 0, 1000)]
+    base = [(1, 0, 1000), (2, 1, 100), (3, 3, 500), (4, 7, 1000), (8, 2, 200), (min(16, lps + 3), 5, 300), (16, 0, 1000)]   # RootsimInit refuses more threads than cores (16 here)
     if tier == "quick":
         return [r.choice(base[:2]), r.choice(base[2:5]), r.choice(base[4:])]
     return base + [(r.range(1, 16), r.range(1, 9), r.choice([50, 100, 1000, 5000]))]
@@ -141,6 +141,8 @@ def campaign(c, ctx, r, nprogs, mask, tier, want_stats=False, variants=("pred", 
         cfgs = configs(r, tier, pr["p"]["lps"]) + list(extra_cfgs or [])
         for ci, (th, ck, gp) in enumerate(cfgs):
             for ranks in ranks_list:
+                if ranks > 1 and pr["p"]["lps"] < ranks:
+                    continue          # a rank without LPs: known finding F15, probed separately by the C08 check
                 jobs_list.append((pr, th, ck, gp, ranks, ci, delays[(pr["idx"] + ci) % len(delays)]))
 
     def one(job):
